@@ -458,26 +458,43 @@ type predSummary struct {
 	when map[bool]*State
 }
 
-func (p *Prog) predicateSummary(fn *Func) *predSummary {
+func (p *Prog) predicateSummary(fn *Func) *predSummary { return p.predicateSummaryK(fn, 0, 1) }
+
+// predicateSummaryK: the same for the k-th of n results (a boolean), e.g. the ok of `victims, ok := h()`.
+func (p *Prog) predicateSummaryK(fn *Func, k, n int) *predSummary {
 	if fn == nil || fn.Decl.Body == nil {
 		return nil
 	}
-	if s, ok := p.predCache[fn]; ok {
+	key := predKey{fn, k}
+	if s, ok := p.predCacheK[key]; ok {
 		return s
 	}
-	if p.predCache == nil {
-		p.predCache = map[*Func]*predSummary{}
+	if p.predCacheK == nil {
+		p.predCacheK = map[predKey]*predSummary{}
 	}
-	p.predCache[fn] = nil // in progress / not a predicate
+	p.predCacheK[key] = nil // in progress / not a predicate
 	res := fn.Decl.Type.Results
-	if res == nil || len(res.List) != 1 || len(res.List[0].Names) > 1 {
+	if res == nil {
 		return nil
 	}
-	if b, ok := p.TypeOf(res.List[0].Type).Underlying().(*types.Basic); !ok || b.Info()&types.IsBoolean == 0 {
-		return nil
+	var rtypes []ast.Expr
+	named := false
+	for _, f := range res.List {
+		cnt := len(f.Names)
+		if cnt > 0 {
+			named = true
+		} else {
+			cnt = 1
+		}
+		for i := 0; i < cnt; i++ {
+			rtypes = append(rtypes, f.Type)
+		}
 	}
-	if len(res.List[0].Names) == 1 {
-		return nil // named result: bare returns
+	if named || len(rtypes) != n || k >= n {
+		return nil // named results: bare returns
+	}
+	if b, ok := p.TypeOf(rtypes[k]).Underlying().(*types.Basic); !ok || b.Info()&types.IsBoolean == 0 {
+		return nil
 	}
 	r := p.Walk(fn)
 	if len(r.undecided) > 0 {
@@ -490,16 +507,16 @@ func (p *Prog) predicateSummary(fn *Func) *predSummary {
 		if ex.Lit != nil {
 			continue
 		}
-		if !ok || len(rs.Results) != 1 || ex.State == nil {
+		if !ok || len(rs.Results) != n || ex.State == nil {
 			return nil
 		}
 		for _, v := range []bool{true, false} {
-			if p.isConstBool(rs.Results[0], !v) {
+			if p.isConstBool(rs.Results[k], !v) {
 				continue
 			}
 			st := ex.State
-			if !p.isConstBool(rs.Results[0], v) {
-				st = w.addFact(st, rs.Results[0], v)
+			if !p.isConstBool(rs.Results[k], v) {
+				st = w.addFact(st, rs.Results[k], v)
 			}
 			ends[v] = append(ends[v], st)
 		}
@@ -515,12 +532,22 @@ func (p *Prog) predicateSummary(fn *Func) *predSummary {
 		}
 		s.when[v] = st
 	}
-	p.predCache[fn] = s
+	p.predCacheK[key] = s
 	return s
+}
+
+type predKey struct {
+	fn *Func
+	k  int
 }
 
 // impliedByCall: the atoms implied by `call == val` for a call of a boolean module function.
 func (p *Prog) impliedByCall(call *ast.CallExpr, val bool, env *Env, depth int) []Atom {
+	return p.impliedByCallK(call, 0, 1, val, env, depth)
+}
+
+// impliedByCallK: the atoms implied by "the k-th of n results of call is val".
+func (p *Prog) impliedByCallK(call *ast.CallExpr, k, n int, val bool, env *Env, depth int) []Atom {
 	callee := p.Callee(call)
 	if callee == nil {
 		return nil
@@ -529,7 +556,7 @@ func (p *Prog) impliedByCall(call *ast.CallExpr, val bool, env *Env, depth int) 
 	if fn == nil || call.Ellipsis != 0 {
 		return nil
 	}
-	s := p.predicateSummary(fn)
+	s := p.predicateSummaryK(fn, k, n)
 	if s == nil || s.when[val] == nil {
 		return nil
 	}
@@ -649,12 +676,16 @@ func (p *Prog) Multiplicity(fn *Func) int {
 		p.buildHelperIndex()
 	}
 	n := 0
+	shared := false
 	for _, hs := range p.sharedHelpers {
 		for _, h := range hs {
 			if h == fn {
-				n++
+				shared = true
 			}
 		}
+	}
+	if shared {
+		n = len(p.CallSites(fn.Obj)) // one instance per place the moved block used to be
 	}
 	if n < 1 {
 		n = 1
@@ -806,4 +837,39 @@ func (p *Prog) callsInNode(n ast.Node, names ...string) []*ast.CallExpr {
 		return true
 	})
 	return out
+}
+
+// ownersAllowed: fn satisfies pred, or fn is a private helper (extracted block, or new shared helper) and every
+// function it is part of does (recursively).
+func (p *Prog) ownersAllowed(fn *Func, pred func(*Func) bool, depth int) bool {
+	if pred(fn) {
+		return true
+	}
+	if depth > 6 {
+		return false
+	}
+	if p.helperOf == nil {
+		p.buildHelperIndex()
+	}
+	var direct []*Func
+	if hs := p.HelperSite(fn); hs != nil {
+		direct = []*Func{hs.Caller}
+	} else {
+		for caller, hs := range p.sharedHelpers {
+			for _, h := range hs {
+				if h == fn {
+					direct = append(direct, caller)
+				}
+			}
+		}
+	}
+	if len(direct) == 0 {
+		return false
+	}
+	for _, d := range direct {
+		if !p.ownersAllowed(d, pred, depth+1) {
+			return false
+		}
+	}
+	return true
 }
